@@ -55,7 +55,7 @@ func prepDataVSF64(a Tensor, b interface{}, reuse Tensor) (dataA *storage.Header
 		dataReuse = reuse.hdr()
 	}
 
-	if a.RequiresIterator() || (reuse != nil && reuse.RequiresIterator()) {
+	if a.RequiresIterator() || (reuse != nil && (reuse.RequiresIterator() || !reuse.DataOrder().HasSameOrder(a.DataOrder()))) {
 		ait = a.Iterator()
 		if reuse != nil {
 			iit = reuse.Iterator()
